@@ -170,6 +170,10 @@ def step (d : DSt) (ws : List String) : DSt × String :=
     | none => (d, "bad-op")
   | ["delay", _, _] => (d, "ok")
   | ["work", _] => (d, "ok")
+  | ["deadlate", _, _, _] =>
+    -- a send that finds its recipient's mailbox closed fails, whenever it finds out: M-NET's classification of a failed
+    -- send is NoRecipient naming the sending model (`fault_attribution`), and nothing runs after a fault
+    (d, "deadlate no-recipient sender then terminated")
   | ["nestrun", _, kind, n] =>
     -- the nested simulation's own report follows M-NET's classification (a message left in a mailbox outside the
     -- simulation is a loss, a model waiting for its own reply is a deadlock with its request queued, a panic names the
